@@ -1051,7 +1051,7 @@ func FromV3RequestBodyFormData(mediaType *openapi3.MediaType) openapi2.Parameter
 			typ = &openapi3.Types{"file"}
 		}
 		required := false
-		for _, name := range val.Required {
+		for _, name := range mediaType.Schema.Value.Required {
 			if name == propName {
 				required = true
 				break
